@@ -98,16 +98,26 @@ def exec_upgrade(c):
         json.dump(cfg, open(os.path.join(evo, "settings.json"), "w"))
         open(os.path.join(evo, "assets_version"), "w").write("v0.0.1")
         env = dict(os.environ, HOME=home, PYTHONWARNINGS="ignore")
-        p = subprocess.run([sys.executable, "-c", "import json, evo.tools.settings as s; print(json.dumps(dict((k, s.SETTINGS[k]) for k in s.SETTINGS if k != '__locked__')))"],
+        code = ("import json, evo.tools.settings as s\n"
+                "loaded = dict((k, s.SETTINGS[k]) for k in s.SETTINGS if k != '__locked__')\n"
+                "s.reset(s.DEFAULT_PATH, ['plot_linewidth', 'plot_statistics'])\n"
+                "after = json.load(open(s.DEFAULT_PATH))\n"
+                "print(json.dumps({'loaded': loaded, 'after_reset': after}))")
+        p = subprocess.run([sys.executable, "-c", code],
                            env=env, capture_output=True, text=True, timeout=120)
         if p.returncode != 0:
-            return {"out": "exit%d" % p.returncode, "all_keys": False, "user_kept": False, "added_defaults": False}
-        loaded = json.loads(p.stdout.strip().splitlines()[-1])
-        on_disk = json.load(open(os.path.join(evo, "settings.json")))
+            return {"out": "exit%d" % p.returncode, "all_keys": False, "user_kept": False, "added_defaults": False, "reset_after_ok": False}
+        both = json.loads(p.stdout.strip().splitlines()[-1])
+        loaded, after_reset = both["loaded"], both["after_reset"]
+        on_disk = dict(after_reset)
+        for k in ("plot_linewidth", "plot_statistics"):       # the state before the reset, for the upgrade clauses
+            on_disk[k] = loaded.get(k)
+        reset_ok = all(after_reset.get(k) == DEFAULT_SETTINGS_DICT[k] for k in ("plot_linewidth", "plot_statistics")) and \
+            all(after_reset.get(k) == v for k, v in loaded.items() if k not in ("plot_linewidth", "plot_statistics"))
         ok_keys = all(k in loaded for k in DEFAULT_SETTINGS_DICT) and all(k in on_disk for k in DEFAULT_SETTINGS_DICT)
         kept = all(loaded.get(k) == v and type(loaded.get(k)) is type(v) and on_disk.get(k) == v for k, v in user.items())
         added = all(on_disk.get(KEY[p_]) == DEFAULT_SETTINGS_DICT[KEY[p_]] for p_ in c["missing"])
-        return {"out": "ok", "all_keys": ok_keys, "user_kept": kept, "added_defaults": added}
+        return {"out": "ok", "all_keys": ok_keys, "user_kept": kept, "added_defaults": added, "reset_after_ok": bool(reset_ok)}
     finally:
         shutil.rmtree(home, ignore_errors=True)
 
@@ -196,7 +206,19 @@ def exec_gen(job):
     p, base, t = tables[name]
     used = {k: 0 for k in t}
     argv, dests = [], []
+    last = None
     for kind in c["opts"]:
+        if kind == "repeat":
+            # the previous value-taking option once more, with a different value
+            if last is None or last[1] in ("flag", "nargs2", "str"):
+                argv.append(None)
+                dests.append(None)
+                continue
+            opt, lk, dst = last
+            val2 = {"int": ["250"], "negint": ["-1"], "float": ["0.75"], "negfloat": ["-1.5"], "expfloat": ["2e-2"], "intfloat": ["3"]}[lk]
+            argv.append([opt] + val2)
+            dests.append(dst)
+            continue
         pool = {"flag": "flag", "int": "int", "negint": "int", "float": "float", "negfloat": "float", "expfloat": "float",
                 "intfloat": "float", "str": "str", "nargs2": "nargs2"}[kind]
         opts = t[pool]
@@ -215,6 +237,7 @@ def exec_gen(job):
                "intfloat": ["2"], "str": ["out_%d.dat" % n], "nargs2": ["0.5", "10"]}[kind]
         argv.append([o[0]] + val)
         dests.append(o[1])
+        last = (o[0], kind, o[1])
     flat = [x for a in argv if a for x in a]
     try:
         data = main_config.generate(flat)
@@ -237,6 +260,10 @@ def exec_gen(job):
         v1, v2 = getattr(ns1, dst), getattr(ns2, dst, "MISSING")
         eq.append(bool(v1 == v2 and not (isinstance(v1, bool) != isinstance(v2, bool))))
         intok.append(isinstance(v2, int) and not isinstance(v2, bool))
+    for k in range(len(dests)):          # a repeated option is judged at its last occurrence only
+        if dests[k] is not None and dests[k] in dests[k + 1:]:
+            eq[k] = True
+            intok[k] = True
     extra = len([k for k in data if k not in [x for x in dests if x]])
     return {"out": "ok", "eq": eq, "intok": intok, "extra": extra}
 
